@@ -1,6 +1,7 @@
 import AiocoapModel.Basic.Bytes
 import AiocoapModel.Oscore.Protect
 import AiocoapModel.Oscore.Session
+import AiocoapModel.Oscore.ProtPersist
 /-! Line protocol for the OSCORE protect/unprotect model (AEAD = `transparentAead`).
 
 Tokens: bytes as hex (`-` empty); `~` = absent (`None`).
@@ -17,6 +18,9 @@ Tokens: bytes as hex (`-` empty); `~` = absent (`None`).
 `C11 Z <option>`           → `<piv|~> <kid|~> <kidctx|~> <group 0|1> <recompressed|~>` | `err:DecodeError`
 `C11 N <ivBytes> <commonIv> <piv> <id>` → nonce | `err:AssertionError`
 `C11 A <alg> <kid> <piv>`  → Encrypt0 AAD
+`C11 H <chunk start> <chunk limit> <next-to-send on disk> <ev>+` → the sender sequence numbers of a persisted context
+   over the lives of a process: `q` a protect that takes a number → the number | `x` (exhausted); `K` the process is
+   killed and the context loaded again, `S` it is stopped (`_destroy`) and loaded again → `d<next-to-send on disk>`
 -/
 namespace Aiocoap.Oscore.Prot
 
@@ -127,8 +131,27 @@ def showWindow : Option Aiocoap.Oscore.RW → String
   | none => "u"
   | some w => s!"i:{w.index}:{w.bitfield}"
 
+def parseSendEv (s : String) : Option SendEv :=
+  if s = "q" then some .take else if s = "K" then some .kill else if s = "S" then some .stop else none
+
+/-- one output token per event, as the line protocol prints them -/
+def showSendRun (c : Chunks) (s : SendState) : List SendEv → List String
+  | [] => []
+  | e :: es =>
+    let r := sendStep c s e
+    let tok := match e with
+      | .take => (match r.1 with | some n => toString n | none => "x")
+      | _ => s!"d{r.2.disk}"
+    tok :: showSendRun c r.2 es
+
 def handle (args : List String) : String :=
   match args with
+  | "H" :: start :: limit :: disk :: evs =>
+    match start.toNat?, limit.toNat?, disk.toNat?, evs.mapM parseSendEv with
+    | some start, some limit, some disk, some evs =>
+      if start = 0 || limit = 0 || evs.isEmpty then "out-of-model" else
+      " ".intercalate (showSendRun { start, limit } (loadSend { start, limit } disk) evs)
+    | _, _, _, _ => "bad-op"
   | "S" :: ctx :: size :: win :: echo :: msgs =>
     match parseCtx ctx, size.toNat?, parseOptBytes echo, parseMsgs msgs with
     | some B, some size, some echo, some ms =>
